@@ -16,7 +16,14 @@ import (
 	charging_dict "github.com/free5gc/chf/ccs_diameter/dict"
 )
 
+var dictsLoaded bool
+
+// the process loads each dictionary once (a second Load of the same commands is refused)
 func loadDicts(t *testing.T) {
+	if dictsLoaded {
+		return
+	}
+	dictsLoaded = true
 	for _, d := range []string{charging_dict.RateDictionary, charging_dict.AbmfDictionary} {
 		if err := dict.Default.Load(bytes.NewReader([]byte(d))); err != nil {
 			t.Fatal(err)
